@@ -723,11 +723,42 @@ impl Shape {
                     other.clone()
                 }
             }
-            (Shape::List(left_slist), Shape::List(right_slist)) => {
-                self.narrow_list_shapes_cached(left_slist, right_slist, right, symbol_table, seen)
-            }
-            (Shape::Tuple(left_slist), Shape::Tuple(right_slist)) => {
-                self.narrow_tuple_shapes_cached(left_slist, right_slist, right, symbol_table, seen)
+            // Lists and tuples are tried both ways round, and so is everything
+            // inside them. Without remembering the answers the work doubles
+            // with every level of nesting when the shapes do not fit at the
+            // bottom. The pair is kept in the cache under the empty name.
+            (Shape::List(_), Shape::List(_)) | (Shape::Tuple(_), Shape::Tuple(_)) => {
+                let pair = Shape::List(NarrowedShape::new_with_pos(
+                    vec![self.clone(), right.clone()],
+                    self.pos().clone(),
+                ));
+                if let Some(cached) = seen
+                    .iter()
+                    .find(|(name, shape, _)| name.is_empty() && *shape == pair)
+                {
+                    return cached.2.clone();
+                }
+                let result = match (self, right) {
+                    (Shape::List(left_slist), Shape::List(right_slist)) => self
+                        .narrow_list_shapes_cached(
+                            left_slist,
+                            right_slist,
+                            right,
+                            symbol_table,
+                            seen,
+                        ),
+                    (Shape::Tuple(left_slist), Shape::Tuple(right_slist)) => self
+                        .narrow_tuple_shapes_cached(
+                            left_slist,
+                            right_slist,
+                            right,
+                            symbol_table,
+                            seen,
+                        ),
+                    _ => unreachable!(),
+                };
+                seen.push(("".into(), pair, result.clone()));
+                result
             }
             (Shape::Func(left_opshape), Shape::Func(right_opshape)) => {
                 if left_opshape.args.len() != right_opshape.args.len() {
